@@ -218,3 +218,14 @@ pub fn hash_bytes(s: &[u8]) -> u64 {
     }
     h
 }
+
+
+/// parse our own files (worker results, replay files) without serde_json's nesting limit:
+/// model trees of depth 100 nest deeper than its default 128
+pub fn parse_json(bytes: &[u8]) -> Result<J, String> {
+    let mut de = serde_json::Deserializer::from_slice(bytes);
+    de.disable_recursion_limit();
+    let v = <J as serde::Deserialize>::deserialize(&mut de).map_err(|e| e.to_string())?;
+    de.end().map_err(|e| e.to_string())?;
+    Ok(v)
+}
